@@ -291,7 +291,11 @@ func c07Cases(e *env) {
 				// leave in clear text
 				target = "http://" + hostHdr + target
 			}
-			cl.send([]byte("GET " + target + " HTTP/1.1\r\nHost: " + hostHdr + "\r\n" + xfp + "\r\n"))
+			if c.C.Form == "origin10NoHost" {
+				cl.send([]byte("GET " + target + " HTTP/1.0\r\n\r\n"))
+			} else {
+				cl.send([]byte("GET " + target + " HTTP/1.1\r\nHost: " + hostHdr + "\r\n" + xfp + "\r\n"))
+			}
 			r, err := cl.recv("GET", 8*time.Second)
 			time.Sleep(5 * time.Millisecond)
 			gotTLS, gotPlain, sniffed := false, false, ""
